@@ -16,6 +16,7 @@ Helper lemmas: Proofs/KeysBase.lean, Proofs/Keys.lean (part A), Proofs/KeysB.lea
 -/
 import SpsdkVerif.Proofs.Keys
 import SpsdkVerif.Proofs.KeysB
+import SpsdkVerif.Proofs.KeysGlue
 
 namespace SpsdkVerif.C08
 open SpsdkVerif SpsdkVerif.Keys SpsdkVerif.Misc SpsdkVerif.Generated
@@ -266,6 +267,289 @@ theorem pubparse_pem_der (ext : Ext) (d : Bytes) (k : PubKey) :
   constructor
   · intro h1 h2; simp [pubParse, h1, h2]
   · intro h1 h2; simp [pubParse, h1, h2]
+
+/-! ## Phase 2: the glue around the key objects (Model/KeysGlue.lean) -/
+
+/-! ### DER → raw → DER with the explicit window predicate -/
+
+/-- For ALL `(r, s)`: whenever the DER length lies in the window of curve `c` (the exact predicate under which
+    `ECDSASignature.parse` recovers the curve) the DER form survives parse → export(DER) unchanged, and — when the numbers
+    fit the coordinate width — DER → raw → DER is the identity and so is raw → DER → raw. -/
+theorem ecdsa_der_raw_der (c : Curve) (r s : Nat) (hw : LenWindow c r s) :
+    (sigParse (derEncode r s)).bind (fun x => sigExport x .der) = .ok (derEncode r s) ∧
+    (r < 256 ^ c.cl → s < 256 ^ c.cl →
+      (sigParse (derEncode r s)).bind (fun x => sigExport x .nxp) = .ok (rawSig c r s) ∧
+      (sigParse (rawSig c r s)).bind (fun x => sigExport x .der) = .ok (derEncode r s) ∧
+      (sigParse (rawSig c r s)).bind (fun x => sigExport x .nxp) = .ok (rawSig c r s)) := by
+  refine ⟨by rw [sigParse_der c r s hw]; rfl, fun hr hs => ⟨?_, ?_, ?_⟩⟩
+  · rw [sigParse_der c r s hw]; exact sigExport_raw c r s hr hs
+  · rw [sigParse_raw c r s hr hs]; rfl
+  · rw [sigParse_raw c r s hr hs]; exact sigExport_raw c r s hr hs
+
+/-! ### attempt order of `extract_public_key_from_data` (and of every `try … except SPSDKError: pass` chain) -/
+
+/-- A certificate is tried before a private key before a public key; the first decoder that accepts wins, whatever the
+    later ones would say. -/
+theorem extract_public_key_order {α : Type} (k : α) (p q : Try α) :
+    extractPublicKey (.ok k) p q = .ok k ∧ extractPublicKey .spsdk (.ok k) q = .ok k ∧
+    extractPublicKey .spsdk .spsdk (.ok k) = .ok k := ⟨rfl, rfl, rfl⟩
+
+/-- If all three refuse the result is an SPSDK error — and only then. -/
+theorem extract_public_key_all_refuse {α : Type} (c p q : Try α) :
+    extractPublicKey c p q = .error .spsdk ↔ c = .spsdk ∧ p = .spsdk ∧ q = .spsdk := by
+  unfold extractPublicKey
+  rw [firstAccept_spsdk_iff]
+  simp
+
+/-- A failure that is not an `SPSDKError` does not fall through: it escapes exactly when every earlier attempt refused. -/
+theorem extract_public_key_escape {α : Type} (c p q : Try α) :
+    extractPublicKey c p q = .error .other ↔
+      c = .other ∨ (c = .spsdk ∧ p = .other) ∨ (c = .spsdk ∧ p = .spsdk ∧ q = .other) := by
+  cases c <;> cases p <;> cases q <;> simp [extractPublicKey, firstAccept]
+
+/-- General form, for chains of any length (`PublicKey.parse`, `reconstruct_key`, …). -/
+theorem first_accept_spec {α : Type} (l : List (Try α)) (a : α) :
+    (firstAccept l = .ok a ↔ ∃ pre post, l = pre ++ .ok a :: post ∧ ∀ t ∈ pre, t = .spsdk) ∧
+    (firstAccept l = .error .spsdk ↔ ∀ t ∈ l, t = .spsdk) ∧
+    (firstAccept l = .error .other ↔ ∃ pre post, l = pre ++ .other :: post ∧ ∀ t ∈ pre, t = .spsdk) :=
+  ⟨firstAccept_ok_iff l a, firstAccept_spsdk_iff l, firstAccept_other_iff l⟩
+
+/-- `get_matching_key_id(_from_signature)` returns `i` iff key `i` matches and no earlier key does; it refuses with an SPSDK
+    error iff no key matches. -/
+theorem matching_key_id_spec (ms : List Bool) (i : Nat) :
+    (matchingKeyId ms = .ok i ↔ ms[i]? = some true ∧ ∀ j, j < i → ms[j]? = some false) ∧
+    (matchingKeyId ms = .error .spsdk ↔ ∀ m ∈ ms, m = false) := by
+  refine ⟨?_, firstTrueFrom_err_iff ms 0⟩
+  unfold matchingKeyId
+  rw [firstTrueFrom_ok_iff]
+  simp
+
+/-! ### certificates -/
+
+/-- `Certificate.parse(cert.export(NXP))` returns the certificate: the zero padding to a multiple of four is stripped one
+    byte per `ExtraData` error until the loader accepts.  Assumptions on `cryptography` (hypotheses): it loads the DER form
+    and reports `ExtraData` for the DER form followed by zero bytes. -/
+theorem cert_nxp_roundtrip {γ : Type} (load : Bytes → LoadRes γ) (der : Bytes) (c : γ)
+    (hload : load der = .ok c) (hextra : ∀ k, 0 < k → load (der ++ List.replicate k 0) = .extraData) :
+    certLoadDer load (certExportNxp der) = .ok c ∧ certLoadDer load der = .ok c := by
+  constructor
+  · unfold certLoadDer certExportNxp
+    exact certLoadDerF_padded load der c hload hextra _ _ (by rw [List.length_append, List.length_replicate]; omega)
+  · have := certLoadDerF_padded load der c hload hextra 0 der.length (by omega)
+    simpa [certLoadDer] using this
+
+/-- … through `Certificate.parse` itself for every DER certificate of 128 bytes or more (`30 8x …`): padded or not it is
+    never sniffed as PEM. -/
+theorem cert_parse_nxp_roundtrip {γ : Type} (loadPem : Bytes → Option γ) (load : Bytes → LoadRes γ) (l : UInt8) (rest : Bytes) (c : γ)
+    (hl : 0x80 ≤ l.toNat ∧ l.toNat ≤ 0xBF)
+    (hload : load (0x30 :: l :: rest) = .ok c)
+    (hextra : ∀ k, 0 < k → load ((0x30 :: l :: rest) ++ List.replicate k 0) = .extraData) :
+    certParse loadPem load (certExportNxp (0x30 :: l :: rest)) = .ok c ∧ certParse loadPem load (0x30 :: l :: rest) = .ok c := by
+  have h1 : fileEncoding (certExportNxp (0x30 :: l :: rest)) = .der := by
+    unfold certExportNxp
+    rw [List.cons_append, List.cons_append]
+    exact B.sniff_der_long l _ hl
+  have h2 : fileEncoding (0x30 :: l :: rest) = .der := B.sniff_der_long l rest hl
+  have hr := cert_nxp_roundtrip load (0x30 :: l :: rest) c hload hextra
+  unfold certParse
+  simp [h1, h2, hr.1, hr.2]
+
+/-- `raw_size` is the DER length rounded up to a multiple of four -/
+theorem cert_raw_size (der : Bytes) :
+    certRawSize der % 4 = 0 ∧ der.length ≤ certRawSize der ∧ certRawSize der < der.length + 4 := by
+  unfold certRawSize certExportNxp
+  rw [List.length_append, List.length_replicate]
+  omega
+
+/-- Only zero bytes are ever stripped: trailing data that is not zero is refused. -/
+theorem cert_strip_only_zeros {γ : Type} (load : Bytes → LoadRes γ) (data : Bytes)
+    (h : load data = .extraData) (hz : data.getLast? ≠ some 0) : certLoadDer load data = .error .spsdk := by
+  unfold certLoadDer certLoadDerF
+  rw [h]
+  simp [hz]
+
+/-- `validate_certificate_chain`: a chain of `n ≥ 2` certificates yields `n - 1` answers, answer `i` being
+    `chain[i].validate(chain[i+1])` (subject first, its issuer next); shorter chains are refused. -/
+theorem validate_chain_spec {γ : Type} (valid : γ → γ → Bool) (chain : List γ) :
+    (chain.length ≤ 1 → validateChain valid chain = .error .spsdk) ∧
+    (2 ≤ chain.length → ∃ r, validateChain valid chain = .ok r ∧ r.length = chain.length - 1 ∧
+      ∀ i (h : i + 1 < chain.length), r[i]? = some (valid (chain[i]'(by omega)) (chain[i + 1]'h))) := by
+  constructor
+  · intro h; simp [validateChain, h]
+  · intro h
+    have h' : ¬ chain.length ≤ 1 := by omega
+    refine ⟨List.zipWith valid chain chain.tail, by simp [validateChain, h'], ?_, ?_⟩
+    · simp only [List.length_zipWith, List.length_tail]; omega
+    · intro i hi
+      rw [List.getElem?_zipWith]
+      have h1 : chain[i]? = some (chain[i]'(by omega)) := List.getElem?_eq_getElem (by omega)
+      have h2 : chain.tail[i]? = some (chain[i + 1]'hi) := by
+        rw [List.getElem?_tail]; exact List.getElem?_eq_getElem hi
+      rw [h1, h2]
+
+/-- FULL-STRENGTH statement: `Certificate.validate` checks the signature with the parameters the certificate was signed
+    with.  FALSE on the current code for RSASSA-PSS certificates (which `Certificate.generate_certificate(pss_padding=True)`
+    and `nxpcertgen` produce): `pss_padding` is never passed.  Open finding `C08-cert-validate-ignores-pss`,
+    repair proposed in proposed_fixes/C08-3.diff. -/
+def CertValidateFull : Prop := ∀ alg hash, certValidateCall alg hash = certValidateSpec alg hash
+
+theorem cert_validate_params_partial (alg : CertAlg) (hash : String) (h : alg ≠ .rsaPss) :
+    certValidateCall alg hash = certValidateSpec alg hash := by
+  cases alg <;> simp_all [certValidateCall, certValidateSpec]
+
+theorem cert_validate_params_full_refuted : ¬ CertValidateFull := by
+  intro h
+  have := h .rsaPss "sha256"
+  simp [certValidateCall, certValidateSpec] at this
+
+/-! ### signature providers -/
+
+/-- FULL-STRENGTH statement: a provider created by `get_signature_provider(sp_cfg="type=file;…", pss_padding=v)` signs with
+    PSS iff `v` is true.  FALSE on the current code (`sp_create_drops_pss`): open finding `C08-sp-create-drops-pss`. -/
+def SpPssHonoured : Prop :=
+  ∀ (params : Params) (v : PVal), params.lookup "pss_padding" = some v → createdUsesPss params = v.truthy
+
+/-- What the code does: `pss_padding` is a reserved key and not a named parameter of `PlainFileSP.__init__` (it would be
+    swallowed by `**kwargs`), so `SignatureProvider.create` deletes it — whatever value was given, the provider signs
+    PKCS#1 v1.5.  (Lists taken from the source: `Generated.KeysTables.spReservedKeys`, `plainFileInitParams`.) -/
+theorem sp_create_drops_pss (params : Params) : createdUsesPss params = false := by
+  unfold createdUsesPss plainFileSignKwargs filterParams
+  rw [List.filter_filter, lookup_filter_none]
+  intro p hp
+  rw [hp]; decide
+
+theorem sp_pss_full_refuted : ¬ SpPssHonoured := by
+  intro h
+  have := h [("type", .str "file"), ("file_path", .str "k.pem"), ("pss_padding", .bool true)] (.bool true) (by decide)
+  rw [sp_create_drops_pss] at this
+  simp [PVal.truthy] at this
+
+/-- The `local_file_key=` path does honour the flag (with Python truthiness: the string `"False"` counts as true). -/
+theorem sp_local_file_honours_pss (kwargs : Params) (v : PVal) (h : kwargs.lookup "pss_padding" = some v) :
+    localFileUsesPss kwargs = v.truthy := by
+  simp [localFileUsesPss, h]
+
+/-- Every other keyword (not reserved, not a named parameter) reaches `private_key.sign` unchanged. -/
+theorem sp_create_keeps_other_kwargs (params : Params) (k : String)
+    (h1 : KeysTables.spReservedKeys.contains k = false) (h2 : KeysTables.plainFileInitParams.contains k = false) :
+    (plainFileSignKwargs params).lookup k = params.lookup k := by
+  unfold plainFileSignKwargs filterParams
+  rw [lookup_filter_keep, lookup_filter_keep]
+  · intro p hp; rw [hp, h1]; rfl
+  · intro p hp; rw [hp, h2]; rfl
+
+/-- `signature_length` announced by a provider = the actual length of what `get_signature` returns: RSA `key_size // 8`
+    = the modulus length in bytes (the length of every RSASSA signature, RFC 8017) for every supported size; ECC
+    `2·cl` = the length of the raw `r ‖ s` (and of its normalisation, `sigprovider_normalises`). -/
+theorem signature_length_actual :
+    (∀ ks n, ks ∈ KeysTables.rsaSupportedKeySizes → TopBit n ks → rsaSigLen ks = byteLen n) ∧
+    (∀ c r s, eccSigLen c = (rawSig c r s).length) ∧
+    (Curve.all.map eccSigLen = [64, 96, 132] ∧ KeysTables.rsaSupportedKeySizes.map rsaSigLen = [256, 384, 512]) := by
+  refine ⟨?_, ?_, by decide⟩
+  · intro ks n hks hn
+    simp only [KeysTables.rsaSupportedKeySizes, List.mem_cons, List.mem_nil_iff, or_false] at hks
+    rcases hks with rfl | rfl | rfl
+    · rw [B.byteLen_topbit n 2048 256 (by decide) (by decide) hn]; decide
+    · rw [B.byteLen_topbit n 3072 384 (by decide) (by decide) hn]; decide
+    · rw [B.byteLen_topbit n 4096 512 (by decide) (by decide) hn]; decide
+  · intro c r s
+    rw [rawSig_length]
+    exact (raw_window_facts c).2.2.2.2.1
+
+/-- `get_hash_type_from_signature_size` is the default hash of the curve with that raw signature size -/
+theorem hash_from_sig_size_agrees :
+    KeysTables.hashFromSigSize = Curve.all.map (fun c => (c.sigSize, (KeysTables.eccDefaultHash.lookup c.keySize).getD "")) := by
+  decide
+
+/-! ### raw key files of the nxpcrypto CLI -/
+
+/-- FULL-STRENGTH: every raw private key written by `nxpcrypto key convert -e RAW` is read back by `reconstruct_key`.
+    FALSE for secp521r1 (66 bytes: "Can't recognize key"): open finding `C08-cli-raw-private-p521`. -/
+def CliRawPrivateFull : Prop :=
+  ∀ (privOk : Curve → Nat → Bool) (onCurve : Curve → Nat → Nat → Bool) (c : Curve) (d : Nat), d < 256 ^ c.cl → privOk c d = true →
+    ∃ b, cliRawPrivate c d = .ok b ∧ reconstructRaw privOk onCurve b = .ok (.priv c d)
+
+theorem cli_raw_private_roundtrip_partial (privOk : Curve → Nat → Bool) (onCurve : Curve → Nat → Nat → Bool) (c : Curve) (d : Nat)
+    (hc : c ≠ .p521) (hd : d < 256 ^ c.cl) (hok : privOk c d = true) :
+    cliRawPrivate c d = .ok (beEnc c.cl d) ∧ reconstructRaw privOk onCurve (beEnc c.cl d) = .ok (.priv c d) := by
+  refine ⟨toBytes_ok _ _ hd, ?_⟩
+  unfold reconstructRaw
+  rw [beEnc_length, beDec_beEnc _ _ hd]
+  cases c with
+  | p521 => exact absurd rfl hc
+  | p256 =>
+    have : (KeysTables.keyLenCurve Curve.p256.cl).bind Curve.ofName = some .p256 := by decide
+    rw [this]; simp only
+    have h2 : Curve.p256.cl ≤ 48 := by decide
+    simp [h2, hok]
+  | p384 =>
+    have : (KeysTables.keyLenCurve Curve.p384.cl).bind Curve.ofName = some .p384 := by decide
+    rw [this]; simp only
+    have h2 : Curve.p384.cl ≤ 48 := by decide
+    simp [h2, hok]
+
+/-- every 66-byte raw private key of secp521r1 is refused by the raw stage, whatever its value -/
+theorem cli_raw_private_p521_refused (privOk : Curve → Nat → Bool) (onCurve : Curve → Nat → Nat → Bool) (d : Nat) :
+    reconstructRaw privOk onCurve (beEnc Curve.p521.cl d) = .error .spsdk := by
+  unfold reconstructRaw
+  rw [beEnc_length]
+  have e : Curve.p521.cl = 66 := by decide
+  rw [e]
+  have : (KeysTables.keyLenCurve 66).bind Curve.ofName = some .p521 := by decide
+  rw [this]
+  simp
+
+theorem cli_raw_private_full_refuted : ¬ CliRawPrivateFull := by
+  intro h
+  obtain ⟨b, hb, hr⟩ := h (fun _ _ => true) (fun _ _ _ => true) .p521 1 (by decide) rfl
+  have e : b = beEnc Curve.p521.cl 1 := by
+    have := toBytes_ok Curve.p521.cl 1 (by decide)
+    unfold cliRawPrivate at hb
+    rw [this] at hb
+    exact (Except.ok.inj hb).symm
+  rw [e, cli_raw_private_p521_refused] at hr
+  exact absurd hr (by simp)
+
+/-- raw public keys of 64 / 96 bytes are also understood by the raw stage (they normally never get there: `PublicKey.parse`
+    accepts them first — and the 132-byte P-521 form, `pubparse_nxp_ecc`) -/
+theorem cli_raw_public_roundtrip_partial (privOk : Curve → Nat → Bool) (onCurve : Curve → Nat → Nat → Bool) (c : Curve) (x y : Nat)
+    (hc : c ≠ .p521) (hx : x < 256 ^ c.cl) (hy : y < 256 ^ c.cl) (hon : onCurve c x y = true) :
+    cliRawPublic c x y = .ok (rawSig c x y) ∧ reconstructRaw privOk onCurve (rawSig c x y) = .ok (.pub c x y) := by
+  refine ⟨rawPair_ok _ _ _ hx hy, ?_⟩
+  unfold reconstructRaw
+  rw [rawSig_length]
+  cases c with
+  | p521 => exact absurd rfl hc
+  | p256 =>
+    have e : 2 * Curve.p256.cl = 64 := by decide
+    have hh : (64 : Nat) / 2 = Curve.p256.cl := by decide
+    rw [e]
+    have : (KeysTables.keyLenCurve 64).bind Curve.ofName = some .p256 := by decide
+    rw [this]; simp only
+    rw [hh]; unfold rawSig
+    rw [take_pair, drop_pair, beDec_beEnc _ _ hx, beDec_beEnc _ _ hy]
+    simp [hon]
+  | p384 =>
+    have e : 2 * Curve.p384.cl = 96 := by decide
+    have hh : (96 : Nat) / 2 = Curve.p384.cl := by decide
+    rw [e]
+    have : (KeysTables.keyLenCurve 96).bind Curve.ofName = some .p384 := by decide
+    rw [this]; simp only
+    rw [hh]; unfold rawSig
+    rw [take_pair, drop_pair, beDec_beEnc _ _ hx, beDec_beEnc _ _ hy]
+    simp [hon]
+
+/-- `reconstruct_key`: a PEM / DER private key wins over everything, then a public key, then the raw stage -/
+theorem reconstruct_key_order {α : Type} (k : α) (q : Try α) (raw : PyRes α) :
+    reconstructKey (.ok k) q raw = .ok k ∧ reconstructKey .spsdk (.ok k) raw = .ok k ∧
+    reconstructKey .spsdk .spsdk raw = raw ∧ reconstructKey .other q raw = .error .other := ⟨rfl, rfl, rfl, rfl⟩
+
+/-- non-vacuity of the phase-2 hypotheses -/
+example : matchingKeyId [false, false, true, true] = .ok 2 := by decide
+example : validateChain (fun a b => a + 1 == b) [1, 2, 4, 5] = .ok [true, false, true] := by decide
+example : certExportNxp [0x30, 0x82, 1, 2, 3] = [0x30, 0x82, 1, 2, 3, 0, 0, 0] := by decide
+example : plainFileSignKwargs [("type", .str "file"), ("file_path", .str "k"), ("pss_padding", .bool true), ("foo", .str "1")] = [("foo", .str "1")] := by decide
+example : reconstructRaw (fun _ _ => true) (fun _ _ _ => true) (beEnc 32 7) = .ok (.priv .p256 7) := by decide +kernel
 
 /-! ## non-vacuity -/
 
